@@ -84,6 +84,23 @@ def check(pid):
         "technique": c["technique"],
     }
 
+# scenario classes added in the later rounds of seeded changes (DESIGN.md section 10), per property
+ADDENDA = {
+  "C01": " Size classes are chosen for the ENCODED size (508..510 value bytes straddle the 512-byte pool seed; one scenario per encoded size 503..518).",
+  "C02": " Error metadata may hold the protocol's own keys and HTTP-level keys of another response (Content-Length, Content-Encoding, Content-Type: an error passed on by a proxy); they are the library's to set.",
+  "C04": " Also: HTTP/2 stream resets as transport errors; a response writer that refuses a single Write; the handler's view of a request stream whose client failed without closing it.",
+  "C07": " Compression names in another letter case are unknown or gzip, never half-known; an accept-encoding header says nothing about the request's own messages; an empty JSON body is not a message.",
+  "C11": " The codec refusing a response message after the handler set its metadata; metadata under its own carrier is exact (nothing added to a key the program set), also when Receive is asked again after the end; ResponseHeader read before the first Receive.",
+  "C13": " A metadata-less sentinel error returned by shared handlers keeps its nil metadata map; the receiving goroutine may be inside Receive before the sender sets its headers and sends.",
+  "C14": " Also: HTTPClient.Do returning a response after the context ended (that body is closed too); a Receive that fails for a reason of its own while the handler waits for the client returns at once.",
+  "C15": " Also: the handler's context ending on the server side alone with the handler returning the bare ctx.Err(); the deadline passing before the unary handler function is called; responses (error pages included) that arrive after the context ended.",
+  "C16": " One interceptor is a UnaryInterceptorFunc (transparent on streaming calls); three grouping modes (side-specific constructors, WithOptions, alternating); the earlier construction from the shared option values has another prefix.",
+  "C17": " Also: a sibling file with the same service and method names generated in the same invocation; services whose generated identifiers meet (Foo / NewFoo, X / UnimplementedX, foo / Foo); methods that use messages of the file itself under Go package names that meet the generated code's own imports.",
+  "C19": " Also: handlers that return an ordinary error (the recovery function stays idle); a recovered error with metadata next to trailers the handler had set; a recovered error whose message is not valid UTF-8 keeps its code.",
+}
+for _p, _t in ADDENDA.items():
+    CLAIMS[_p]["text"] += _t
+
 hooks = []
 try:
     out = subprocess.run(["git", "-C", "/repo", "log", "--format=%H %s"], capture_output=True, text=True).stdout
